@@ -190,17 +190,67 @@ func VerifC04Sequence() {
 		} else {
 			vrtAssert("unique-total", len(got) == 3)
 		}
-	case 2: // replaced wholesale
-		attrs := []string{"command", "entrypoint"}
+	case 2: // replaced wholesale, whatever the later value is: a list, a string, an empty list or an explicit null
+		attrs := []string{"command", "entrypoint", "healthcheck.test"}
 		attr := attrs[vrtChoice("attr", len(attrs))]
-		m, err := tcLoad(nil, nil, c04Doc(attr, []any{v1, "k"}), c04Over(attr, []any{v2}))
+		spell := vrtChoice("laterValue", 4)
+		var later any
+		switch spell {
+		case 0:
+			later = []any{v2}
+		case 1:
+			later = v2
+		case 2:
+			later = []any{}
+		case 3:
+			later = nil
+		}
+		var base, over map[string]any
+		if attr == "healthcheck.test" {
+			base = c04Doc("healthcheck", map[string]any{"test": []any{"CMD", v1, "k"}, "interval": "5s"})
+			if spell == 1 {
+				later = "true " + v2
+			}
+			if spell == 0 {
+				later = []any{"CMD", v2}
+			}
+			over = c04Over("healthcheck", map[string]any{"test": later})
+		} else {
+			base = c04Doc(attr, []any{v1, "k"})
+			over = c04Over(attr, later)
+		}
+		m, err := tcLoad(nil, nil, base, over)
+		vrtObserve("err", err != nil)
+		if spell >= 2 && attr == "healthcheck.test" {
+			// an empty or null test is not a valid healthcheck: nothing to compare
+			return
+		}
 		vrtAssert("loads", err == nil)
 		if err != nil {
 			return
 		}
-		got, ok := c04Strs(tcSvc(m, "s")[attr])
-		vrtObserve("got", got)
-		vrtAssert("override-wholesale", ok && len(got) == 1 && got[0] == v2)
+		var gotAny any
+		if attr == "healthcheck.test" {
+			hc, _ := tcSvc(m, "s")["healthcheck"].(map[string]any)
+			vrtAssert("unmentioned-healthcheck-setting-kept", hc["interval"] == any("5s"))
+			gotAny = hc["test"]
+		} else {
+			gotAny = tcSvc(m, "s")[attr]
+		}
+		vrtObserve("got", gotAny)
+		got, ok := c04Strs(gotAny)
+		for _, g := range got {
+			vrtAssert("nothing-of-the-earlier-value-left", g != "k")
+		}
+		switch spell {
+		case 0:
+			vrtAssert("override-wholesale", ok && len(got) >= 1 && got[len(got)-1] == v2)
+		case 1:
+			s, isStr := gotAny.(string)
+			vrtAssert("override-wholesale-string", (isStr && (s == v2 || s == "true "+v2)) || (ok && len(got) >= 1))
+		case 2, 3:
+			vrtAssert("override-wholesale-empty", gotAny == nil || (ok && len(got) == 0))
+		}
 	}
 }
 
